@@ -44,13 +44,28 @@ def make_input(rng, directed=None):
             'variance': round(2.0 * total + 1.0, 6), 'seed': rng.choice((1, 7, 123456)), 'num_simulations': 5}
 
 
+def tie_input(kind):
+    """directed: two forecasts with equal totals that mirror each other in two cells, events in both cells - the
+    log-rate differences about the null median tie in magnitude with opposite signs (rank ties in the W-test)"""
+    grid = GRIDS[0]
+    ncell, nmag = grid['nx'] * grid['ny'], len(grid['mags'])
+    a = [[0.5] * nmag for _ in range(ncell)]
+    b = [[0.5] * nmag for _ in range(ncell)]
+    a[0][0], a[1][0] = 2.0, 1.0
+    b[0][0], b[1][0] = 1.0, 2.0
+    observed = [[0, 0], [1, 0]] if kind == 'ties' else [[0, 0], [1, 0], [0, 0], [2, 1], [1, 0], [0, 0]]
+    total = sum(sum(r) for r in a)
+    return {'grid': grid, 'rates': a, 'rates_b': b, 'observed': observed, 'synthetic': [[[0, 0]], [[1, 0], [0, 0]], []],
+            'variance': round(2.0 * total + 1.0, 6), 'seed': 7, 'num_simulations': 5}
+
+
 def run(tier, seed):
     rng = random.Random(seed)
     T = Tally()
     n_inputs = 25 if tier == 'quick' else 500
     skipped, judged = {}, set()
-    for r in range(n_inputs):
-        inp = make_input(rng, directed=r if r < 3 else None)
+    for r in list(range(n_inputs)) + ['ties', 'ties2']:
+        inp = tie_input(r) if isinstance(r, str) else make_input(rng, directed=r if r < 3 else None)
         ncell = inp['grid']['nx'] * inp['grid']['ny']
         n_ev, n_cat = len(inp['observed']), len(inp['synthetic'])
         perms = [
